@@ -37,10 +37,10 @@ func init() { fw.Register(&c15{}) }
 
 func (p *c15) ID() string { return "C15" }
 func (p *c15) Rule() string {
-	return "a generated case = one environment (10 zones incl. DST and half-hour zones, 3 date formats, both redaction policies) + one contact model built around an anchor day (35% on a day whose local length is not 24 h; datetime values on 00:00, 00:00:00.000001, 23:59:59.999999(999), +-30 min around midnight in the environment zone; numbers on boundaries and (25%) numbers with 7-18 decimal places or beyond float64 precision; 0-3 URNs; ~30% of fields without value; the 15 fields include six whose key is also an attribute name or a URN scheme — text name/language/tel, number tickets/urn, datetime created_on — with values from the attribute's own pool) materialised twice: through static assets + engine session assets + flows.ReadContact, and as a hand-written Queryable. Per target: ~12 leaf conditions aimed at the contact (every attribute, scheme, field type and admissible operator), random AND/OR trees over them (2-4 children, depth <= 3), programmatic trees for Simplify, 6 pairs of conditions that share key, operator and value but not the property type (fields.language vs language, fields.tel vs tel, …; values = the value of either property) composed in one AND/OR group in both orders, nested in a same-operator group and next to a third condition, presence checks for every property, and all six comparators against ~10 query values for every typed value: the value itself (two spellings), 5 values that differ from it only beyond the 6th-18th decimal place / by rounding or truncating to 0-15 places / by a float64 or float32 detour / by one unit in the 7th-19th significant digit, and 3 distant values. Non-trivial = the case evaluated a combination or a typed comparison on a present value (always true when anything parsed); distinct = distinct (environment, contact, query list)."
+	return "a generated case = one environment (10 zones incl. DST and half-hour zones, 3 date formats, both redaction policies) + one contact model built around an anchor day (35% on a day whose local length is not 24 h; datetime values on 00:00, 00:00:00.000001, 23:59:59.999999(999), +-30 min around midnight in the environment zone; numbers on boundaries and (25%) numbers with 7-18 decimal places or beyond float64 precision; 0-3 URNs; ~30% of fields without value; the 15 fields include six whose key is also an attribute name or a URN scheme — text name/language/tel, number tickets/urn, datetime created_on — with values from the attribute's own pool) materialised twice: through static assets + engine session assets + flows.ReadContact, and as a hand-written Queryable. Per target: ~12 leaf conditions aimed at the contact (every attribute, scheme, field type and admissible operator), random AND/OR trees over them (2-4 children, depth <= 3), programmatic trees for Simplify, 6 pairs of conditions that share key, operator and value but not the property type (fields.language vs language, fields.tel vs tel, …; values = the value of either property) composed in one AND/OR group in both orders, nested in a same-operator group and next to a third condition, presence checks for every property, and all six comparators against ~10 query values for every typed value: the value itself (two spellings), 5 values that differ from it only beyond the 6th-18th decimal place / by rounding or truncating to 0-15 places / by a float64 or float32 detour / by one unit in the 7th-19th significant digit, and 3 distant values. Then a history on the real contact object that has just been evaluated: 3-6 changes through the contact's methods and the modifiers (URNs cleared / set to nothing / set / appended / removed one by one or all, name, language, text-number-datetime fields set and cleared, ticket, last_seen_on), each applied to the harness' model as well; after every change presence of every property, ~50 probe conditions aimed at the present and the earlier values (same result on the object, its Clone(), the contact re-read from its JSON and a Queryable over the model) and 3 compositions. Non-trivial = the case evaluated a combination or a typed comparison on a present value (always true when anything parsed); distinct = distinct (environment, contact, query list)."
 }
 func (p *c15) Directed() []string {
-	return []string{"day-boundaries", "dst-day-length", "number-boundaries", "presence-all", "compose-basic", "colliding-keys", "number-precision"}
+	return []string{"day-boundaries", "dst-day-length", "number-boundaries", "presence-all", "compose-basic", "colliding-keys", "number-precision", "history-urns", "history-values"}
 }
 func (p *c15) NumGenerated(tier string) int {
 	if tier == "thorough" {
@@ -66,6 +66,10 @@ func (p *c15) Floors(tier string) []string {
 		"compose.twins.held", "compose.twins.held.differing_results", "twins.pairs_with_differing_results",
 		"trichotomy.number.held.near_query_value", "trichotomy.number.held.equal_query_value",
 		"colliding.single_conditions_evaluated",
+		"history.observations", "history.all_urns_removed_after_evaluation", "history.all_urns_removed_after_evaluation.by.urns.clear",
+		"history.all_urns_removed_after_evaluation.by.urns.set-modifier", "history.presence.held_after_change",
+		"history.same_state_same_result.held", "history.same_state_same_result.held.clone", "history.same_state_same_result.held.reread",
+		"history.same_state_same_result.held.model", "history.same_state_same_result.held.result_changed_by_the_step",
 	}
 }
 
@@ -1173,6 +1177,8 @@ func (p *c15) Run(c fw.Case) fw.Result {
 		for _, t := range ts {
 			k.runTarget(r.Fork(t.name), t)
 		}
+		// a history on the contact object that has just been evaluated (c15_history.go)
+		k.runHistory(r.Fork("history"), ts[0])
 	}
 	res.Fingerprint = strings.Join(k.fps, "\x01")
 	res.NonTrivial = k.nt
@@ -1225,6 +1231,8 @@ func (k *chk15) directed(name string) {
 	r := fw.NewRand(0, "C15/"+name, 0)
 	k.fps = append(k.fps, name)
 	switch name {
+	case "history-urns", "history-values":
+		k.directedHistory(name)
 	case "day-boundaries":
 		// every boundary instant of a regular day x every zone x every date format, days -1..+1
 		for _, z := range zoneNames {
